@@ -7,13 +7,17 @@ FRESH = "zzq9"
 
 
 def boundaries(text):
-    """offsets of blanks outside quoted text (token boundaries of generated texts)"""
-    out, pos = [], 0
+    """token boundaries outside quoted text: every blank, and both sides of every bracket and comma"""
+    out, pos = set(), 0
     for code, piece in c09.segments(text):
         if code:
-            out += [pos + i for i, c in enumerate(piece) if c == " "]
+            for i, c in enumerate(piece):
+                if c == " ":
+                    out.add(pos + i)
+                elif c in "()[],":
+                    out.add(pos + i); out.add(pos + i + 1)
         pos += len(piece)
-    return out
+    return sorted(out)
 
 
 ATTRS = ["DEFAULT", "COMMENT", "COLLATE", "CHARACTER SET", "GENERATED", "ENGINE", "AUTO_INCREMENT", "CHARSET", "ROW_FORMAT", "STATS_PERSISTENT", "ON UPDATE", "LOCATION",
@@ -45,6 +49,7 @@ def run(ctx):
     r = ctx.rng.fork("c08")
     cases = [(d, t, "regression") for d, t in pfam.regression_cases("C08")] + [(d, t, "corpus") for d, t in pfam.corpus_statements()]
     cases += pfam.scripts(r, n, wild=0.0, single=True)
+    cases += [(d, t, "tree-first") for d, t in pfam.tree_texts(ctx.rng.fork("trees"), 100 if ctx.quick else 2500)]
     res, _ = ctx.corr([pfam.req_parse(d, t) for d, t, _ in cases], stream="parse")
     acc = E.run_impl(["ACC %s %s" % (d, E.enhex(t)) for d, t, _ in cases])
     for (d, t, kind), a in zip(cases, acc):
@@ -64,10 +69,10 @@ def run(ctx):
         bs = boundaries(t)
         if not bs:
             continue
-        for _ in range(2):
+        for _ in range(4):
             b = r.choice(bs)
             tok = FRESH if r.chance(0.7) else r.choice(["'" + FRESH + "'", "90417"])
-            stray.append((d, t[:b] + " " + tok + t[b:], tok.strip("'"), a, t))
+            stray.append((d, t[:b] + " " + tok + " " + t[b:], tok.strip("'"), a, t))
     rs, _ = ctx.corr([pfam.req_parse(d, t) for d, t, _, _, _ in stray], stream="stray")
     for (d, t, tok, base, orig), (_, a, _) in zip(stray, rs):
         if not a.startswith("OK"):
@@ -75,7 +80,7 @@ def run(ctx):
         if tok in a:
             ctx.count("stray:represented"); continue
         ctx.count("stray:IGNORED")
-        after = t.split(" " + (tok if tok in t.split(" ") else "'" + tok + "'") + " ", 1)[-1].lstrip()
+        after = t.split(" " + (tok if (" " + tok + " ") in t else "'" + tok + "'") + " ", 1)[-1].lstrip()
         cls = classify(d, t, "")
         pfam.report(ctx, "word-before-bracket-group" if after.startswith("(") else cls if cls else "stray-token-ignored" + (":unchanged" if a == base else ""),
                     {"kind": "input", "entry": "parse_statements", "dialect": d, "input": t, "original": orig, "observed": a[:400],
